@@ -67,7 +67,7 @@ func slotWorkloads(c *chk.Ctx, label string, n int) []*slotJob {
 func c06(args []string) {
 	c := chk.New("C06", "exploration", args)
 	c.Build(false)
-	c.Rule("contention workloads: maxConcurrentTasks in {1,2,3,4,6,8} (and NumCPU+4.. with a process that needs all slots and one that needs NumCPU+1), 2-4 processes with CoresPerTask drawn from 1..max, half of the command processes wrapped through Prepend, about 3*max simultaneously ready tasks of 15-60 ms (commands and Go functions), skipped tasks mixed in, an optional streaming producer/consumer pair, one scenario with commands whose work is done by a helper outliving them, one long-wait scenario (a task waiting > 10 s for a slot), SCIPIPE_BUFSIZE smaller than CoresPerTask, a multi-core task consuming a joined sub-stream while other tasks keep the slots busy; oracles = (1) sweep line over the commands' own CLOCK_MONOTONIC start/end stamps weighted by CoresPerTask, (2) shadow slot counter updated under the hook mutex at acquisition/release, (3) porcupine linearizability of the Acquire(k)/Release(k) history against a sequential counting semaphore. distinct_nontrivial = runs whose observed weighted overlap reached max (real contention), distinct by (max, cores mix, interleaving signature)")
+	c.Rule("contention workloads: maxConcurrentTasks in {1,2,3,4,6,8} (and NumCPU+4.. with a process that needs all slots and one that needs NumCPU+1), 2-4 processes with CoresPerTask drawn from 1..max, half of the command processes wrapped through Prepend, about 3*max simultaneously ready tasks of 15-60 ms (commands and Go functions), skipped tasks mixed in, an optional streaming producer/consumer pair, one scenario with commands whose work is done by a helper outliving them, one long-wait scenario (a task waiting > 10 s for a slot), SCIPIPE_BUFSIZE smaller than CoresPerTask, a multi-core task consuming a joined sub-stream while other tasks keep the slots busy; also workloads driven through the exported task API with a core count per task; oracles = (1) sweep line over the commands' own CLOCK_MONOTONIC start/end stamps weighted by CoresPerTask, (2) shadow slot counter updated under the hook mutex at acquisition/release, (3) porcupine linearizability of the Acquire(k)/Release(k) history against a sequential counting semaphore. distinct_nontrivial = runs whose observed weighted overlap reached max (real contention), distinct by (max, cores mix, interleaving signature)")
 	c.Assume("a command's [start,end] interval lies inside its task's slot-holding interval, so the weighted overlap is a lower bound of slot usage (sound)", "CoresPerTask <= maxConcurrentTasks")
 	jobs := slotWorkloads(c, "c06", c.Pick(48, 500))
 	// long-wait scenario: three tasks of ~10.6 s on 2 slots, so that one task waits > 10 s for its slot
@@ -206,5 +206,32 @@ func c06(args []string) {
 		}
 		c.Sample(map[string]interface{}{"workload": j.label, "max": max, "procs": gen.Describe(j.s), "cfg": j.cfg, "max_weighted_overlap": ov, "shadow_max": sh, "acquisitions": acq})
 	})
+	// the exported task API: every task has a core count of its own
+	{
+		specs := taskAPISpecs(c.Rand("c06-taskapi"), c.Pick(6, 24))
+		run.Parallel(len(specs), func(i int) {
+			s := specs[i]
+			res, ov, wit, ps := runTaskAPI(c, s, []int{2, 4}[i%2])
+			desc := map[string]interface{}{"task_api_workload": s, "witness": wit, "overlap": ov}
+			if ov > s.Max {
+				c.Violation("overlap-exceeds-max", fmt.Sprintf("task API: commands with cores sum %d executed simultaneously, maxConcurrentTasks=%d: %v", ov, s.Max, wit), desc)
+				return
+			}
+			if res.Hang != "" {
+				if !strings.HasPrefix(res.Hang, "deadlock") {
+					c.Inconclusive("task api: " + res.Hang)
+				}
+				return // a hang is C07's matter
+			}
+			if len(ps) > 0 {
+				return // failures are judged by C07
+			}
+			c.Max(fmt.Sprintf("max_overlap_seen_at_max_%d", s.Max), ov)
+			c.Count("task_api_workloads", 1)
+			if ov == s.Max {
+				c.Nontrivial(fmt.Sprintf("taskapi|%d|%d", s.Max, len(s.Tasks)))
+			}
+		})
+	}
 	c.Finish()
 }
